@@ -47,6 +47,11 @@ _DIGEST = {}
 
 
 def _check_decode(ctx, f, x, width, dt, dmap, tag):
+    # history: an ENABLE DEVICE TYPE frame announcing any type and a 24-bit frame are decoded just before; the
+    # decode under test is then compared with a second decode of the same frame made right after it - what
+    # was decoded before must not matter
+    call(C.from_frame, F.ForwardFrame(24, 0xFFFE30))
+    call(C.from_frame, F.ForwardFrame(16, 0xC100 | ctx.fresh("prime_dt", 0, 255)))
     base = registry_digest()
     st, c = call(C.from_frame, f, devicetype=dt, dev_inst_map=dmap)
     if st == "exc":
